@@ -330,6 +330,23 @@ def s2(chk: Check, proj: Project) -> None:
                 stores.append((mm, q, s))
     okq = {q for _m, q, _s in stores} <= {"_prepare_template", "_nodelist_to_slot_render_func"} and len(stores) >= 2
     chk.ob("S2", "flag-writers", stores[0][0].loc(stores[0][2]) if stores else m.loc(f), okq, f"`_djc_is_component_nested` is written only in {sorted({q for _m, q, _s in stores})}" if okq else f"`_djc_is_component_nested` is written in {sorted({q for _m, q, _s in stores})}: templates the library does not own lose isolated_context")
+    # the flag's value: "is there a BlockContext to inherit" - presence, not content. Every component render pushes a BlockContext
+    # (C10-S9), so the component's template must always join the current layer; an EMPTY inherited BlockContext is still the
+    # one the template's own {% extends %} chain has to register its blocks in
+    for _m, q, s_ in stores:
+        if q != "_prepare_template":
+            continue
+        v_ = s_.value
+        deps = {x.attr for x in ast.walk(v_) if isinstance(x, ast.Attribute)} | {x.id for x in ast.walk(v_) if isinstance(x, ast.Name)}
+        for _s2, v2 in [(a_, b_) for n_ in list(deps) for a_, b_ in assignments(_m.func("_prepare_template"), n_)]:
+            if v2 is not None:
+                deps |= {x.attr for x in ast.walk(v2) if isinstance(x, ast.Attribute)} | {x.id for x in ast.walk(v2) if isinstance(x, ast.Name)}
+        presence = "BLOCK_CONTEXT_KEY" in deps and "render_context" in deps
+        content = sorted(deps & {"blocks", "get_block", "__len__", "len"})
+        okv = (isinstance(v_, ast.Constant) and v_.value is True) or (presence and not content)
+        chk.ob("S2", "component:_prepare_template:flag-means-block-context-present", _m.loc(s_), okv if (presence or isinstance(v_, ast.Constant)) else None,
+               "the flag is true whenever the render context carries a BlockContext (always, for a component render)" if okv else
+               f"`{short(s_)}` makes the flag depend on the CONTENT of the inherited BlockContext ({', '.join(content)}): outside an {{% extends %}} page it is empty, the component template then renders in an extra isolated layer, its own extends chain registers its blocks there, and SlotNode re-pushes the layer below - a {{% block %}} inside a slot default of a three-level component family prints the middle template's content instead of the leaf's override")
     # ownership: the flag stays on the object; an object the template LOADER hands out is the same one stock code renders
     cm = proj.mod("component")
     gt = cm.func("Component._get_template")
